@@ -325,6 +325,24 @@ func parseRunRet(p *Prog, fn *ssa.Function, toks []lexTok, depth int) (obs []par
 					in.InitBind["p0."+f.Name()] = zeroVal(f.Type())
 				}
 			}
+			// scalar fields of nested structs (a look-ahead buffer, counters kept
+			// in a helper struct) start as zero values too
+			if leaves, ok := leafPaths(obj.Type()); ok {
+				for _, suffix := range leaves {
+					if strings.Count(suffix, ".") < 2 || strings.Contains(suffix, "$") || strings.Contains(suffix, "[") {
+						continue
+					}
+					t := typeAtSuffix(obj.Type(), suffix)
+					if t == nil {
+						continue
+					}
+					if b, isBasic := t.Underlying().(*types.Basic); isBasic && b.Info()&(types.IsInteger|types.IsBoolean|types.IsString) != 0 {
+						if _, bound := in.InitBind["p0"+suffix]; !bound {
+							in.InitBind["p0"+suffix] = zeroVal(t)
+						}
+					}
+				}
+			}
 		}
 	}
 	ok = true
@@ -342,6 +360,8 @@ func parseRunRet(p *Prog, fn *ssa.Function, toks []lexTok, depth int) (obs []par
 				}
 			}
 			obs = append(obs, o)
+		case callee.Pkg != nil && callee.Pkg.Pkg.Path() == "strconv" && (strings.HasPrefix(callee.Name(), "Parse") || callee.Name() == "Atoi"):
+			obs = append(obs, parseObs{factory: "strconv." + callee.Name(), args: append([]Val{}, a...)})
 		case isParserErrorf(callee) || FnName(callee) == "(*sml.parser).warningf":
 			if len(a) > 2 && a[2].K == KStr {
 				diags = append(diags, a[2].S)
